@@ -2,6 +2,8 @@ pub mod c01;
 pub mod c02;
 pub mod c03;
 pub mod c08;
+pub mod c11;
+pub mod c13;
 pub mod common;
 pub mod replay;
 
@@ -12,6 +14,8 @@ pub fn run(p: &str, thorough: bool, rest: &[String]) {
         "C02" => c02::run(thorough),
         "C03" => c03::run(thorough),
         "C08" => c08::run(thorough),
+        "C11" => c11::run(thorough),
+        "C13" => c13::run(thorough),
         _ => {
             eprintln!("unknown property {}", p);
             std::process::exit(2);
